@@ -124,9 +124,7 @@ impl Record {
     /// # Ok::<_, std::io::Error>(())
     /// ```
     pub fn end(&self) -> io::Result<Position> {
-        let Some(start) = self.variant_start().transpose()? else {
-            todo!();
-        };
+        let start = self.variant_start().transpose()?.unwrap_or(Position::MIN);
 
         let len = self.rlen()?;
 
